@@ -28,7 +28,7 @@ func nft3(name string, props map[string]bool, sc NftScenario, probe string) *Pkt
 }
 
 // CheckC04: NFT transfers never duplicate an NFT or release escrow to the wrong claimant.
-func CheckC04(tier string) int {
+func modelsC04(tier string) ([]*PktModel, []int) {
 	props := map[string]bool{"C04": true}
 	adv := []string{"nft/" + A + "/" + B + "/cls", "nft/" + A + "/" + C + "/cls", "nftcls", "nft/x/y"}
 	models := []*PktModel{
@@ -43,9 +43,19 @@ func CheckC04(tier string) int {
 		}
 		depth = []int{12, 11}
 	}
+	return models, depth
+}
+
+func CheckC04(tier string) int {
+	models, depth := modelsC04(tier)
+
 	return RunPkt("C04", tier, models, depth, tierBudget(tier, 100*time.Second, 15*time.Minute), append([]string{
 		"token identities are assigned by history (mint -> identity; send -> the packet carries the identity of what was locked or burned; delivery -> what the receiver newly owns inherits the packet's identity), never by parsing class paths",
 		"invariant in every state: each native identity has exactly one live holder (a user-held instance on some chain or a packet in flight); a delivery or refund that takes an instance out of escrow must carry that instance's own identity",
 		"user alphabet: MsgNftTransfer of every user-held instance to every other chain (optionally via the third chain, optionally to an invalid receiver), MsgIssueDenom+MsgMintNFT of adversarial native classes accepted by the NFT module, MsgBurnNFT (thorough); bounded number of user transactions",
 	}, commonAssumptions...))
+}
+
+func init() {
+	PktRegistry["C04"] = func(tier string) []*PktModel { m, _ := modelsC04(tier); return m }
 }
